@@ -488,7 +488,7 @@ func isReorgReturn(r *ssa.Return, errReorg *ssa.Global) bool {
 	if len(vals) == 0 {
 		return false
 	}
-	if u, ok := vals[len(vals)-1].(*ssa.UnOp); ok && u.X == ssa.Value(errReorg) {
+	if isSentinelValue(vals[len(vals)-1], errReorg) {
 		return true
 	}
 	for _, v := range vals {
@@ -659,4 +659,55 @@ func passesIteration(at ssa.Instruction, exitsCount bool) (every, found bool) {
 		return in == terminator(inner) || (exitsCount && isExit(in))
 	}, newCuts().addInstr(at))
 	return !by, true
+}
+
+// isSentinelValue: v is the sentinel error g as errors.Is sees it: the variable itself, or an fmt.Errorf
+// whose format wraps it with %w (`fmt.Errorf("block %d …: %w", n, ErrReorg)`).
+func isSentinelValue(v ssa.Value, g *ssa.Global) bool {
+	v = stripConv(v)
+	if u, ok := v.(*ssa.UnOp); ok && u.Op == token.MUL && u.X == ssa.Value(g) {
+		return true
+	}
+	call, ok := v.(*ssa.Call)
+	if !ok || calleeName(call) != "fmt.Errorf" || len(call.Call.Args) != 2 {
+		return false
+	}
+	format, isK := constString(call.Call.Args[0])
+	if !isK {
+		return false
+	}
+	args, okA := varargValues(call.Call.Args[1])
+	if !okA {
+		return false
+	}
+	// which verb consumes which argument
+	k := 0
+	for i := 0; i+1 < len(format); i++ {
+		if format[i] != '%' {
+			continue
+		}
+		j := i + 1
+		for j < len(format) && strings.ContainsRune("+-# 0123456789.", rune(format[j])) {
+			j++
+		}
+		if j >= len(format) {
+			break
+		}
+		if format[j] == '%' {
+			i = j
+			continue
+		}
+		if format[j] == 'w' && k < len(args) {
+			a := stripConv(args[k])
+			if mi, isMI := a.(*ssa.MakeInterface); isMI {
+				a = stripConv(mi.X)
+			}
+			if u, isU := a.(*ssa.UnOp); isU && u.Op == token.MUL && u.X == ssa.Value(g) {
+				return true
+			}
+		}
+		k++
+		i = j
+	}
+	return false
 }
